@@ -20,6 +20,7 @@ class SourceModule(Object):
         self.filename = filename
         self.mtime = getmtime(filename)
         self.declared_at = 1, 0
+        self.tentative = False
 
     def __repr__(self):
         # type: () -> str
@@ -51,10 +52,11 @@ class SourceModule(Object):
         finally:
             self._loading = False
 
-        if hits == SourceModule.partial_hits:
-            self._scope = scope
-        # else: analysed in the middle of an import cycle, what it got from its
-        # partner depends on which module was asked first; not worth keeping
+        self._scope = scope
+        # analysed in the middle of an import cycle: what it got from its
+        # partner depends on which module was asked first, good for the
+        # current request only (see Project.check_changes)
+        self.tentative = hits != SourceModule.partial_hits
         return scope
 
     @property
